@@ -155,6 +155,12 @@ class Tr:
                 return None
         return self._src[b['offset']:e['offset'] + e.get('tokLen', 0)].decode('utf-8', 'replace')
 
+    def qual_hint(self, n):
+        """(namespace qualifier written at the call site, cname of the calling function)"""
+        t = self.src_text(n) or ''
+        m = re.match(r'^\s*((?:\w+::)+)\w+', t)
+        return (m.group(1) if m else '', self.cname.split('__lambda')[0])
+
     def targs_hint(self, n):
         t = self.src_text(n)
         if t is None:
@@ -335,7 +341,7 @@ class Tr:
             return 'E_%s_%s' % (re.sub(r'[^A-Za-z0-9]+', '_', et), name)
         if kind in ('FunctionDecl', 'CXXMethodDecl'):
             sig = rd['type']['qualType']
-            c = self.ctx.resolve_free(name, sig, self.targs_hint(n))
+            c = self.ctx.resolve_free(name, sig, self.targs_hint(n), self.qual_hint(n))
             if c is None:
                 self.bad('call of function outside registry/model: %s : %s' % (name, sig), n)
             self.ctx.callees.add(c)
@@ -349,7 +355,10 @@ class Tr:
             # non-local object
             if name == 'npos':
                 return '((size_t)-1)'
-            self.ctx.need_globals.add((name, qt(n)))
+            q = qt(n)
+            if name == 'is_forbidden_domain_code_point_table' and 'std::array' not in q:
+                name = name + '__idna'      # ada::idna has its own plain-array copy of the table with the same name
+            self.ctx.need_globals.add((name, q))
             return 'G_' + name
         if kind == 'NonTypeTemplateParmDecl':
             self.bad('unsubstituted template parameter ' + name, n)
@@ -771,8 +780,16 @@ class Tr:
 
     def s_IfStmt(self, n, ind):
         inner = [c for c in n['inner']]
-        if n.get('hasInit') or n.get('hasVar'):
-            self.bad('if with init/var', n)
+        if n.get('hasInit'):
+            self.bad('if with init', n)
+        if n.get('hasVar'):
+            # if (T v = init) ...  ==>  { T v = init; if (v-as-bool) ... }
+            self.emit('{', ind)
+            self.s(inner[0], ind + 1)
+            n2 = dict(n); n2['hasVar'] = False; n2['inner'] = inner[1:]
+            self.s_IfStmt(n2, ind + 1)
+            self.emit('}', ind)
+            return
         cond = inner[0]
         # `if constexpr`: the condition is a ConstantExpr with a value; keep only the live branch
         if n.get('isConstexpr') or (cond.get('kind') == 'ConstantExpr' and 'value' in cond):
